@@ -6,6 +6,7 @@ of DESIGN §6 C04), fed the same operations.  Observation format = harness/ops_h
 import Driver.Proto
 import ZtypV.Model.Sim
 import ZtypV.Model.Iter
+import ZtypV.Model.Api
 namespace Driver.OpsHist
 open ZtypV ZtypV.View ZtypV.Sim Driver
 
@@ -14,6 +15,7 @@ structure HState where
   vs : VStore := #[]                       -- value machine (reference semantics)
   ids : List (String × Nat) := []          -- handle name → object id (latest binding first)
   bound : Option Nat := none               -- C07: allowed hash calls since the last hcount (none = unbounded)
+  tampered : Bool := false                 -- C17: a list view was handed a hand-written length node inside its limit: CORR only from here on
   partialTree : Bool := false              -- C12: some backing has been summarised: errors are allowed, wrong data is not
   h : HashFn := Sha.sha256Pair             -- the pair hash of this history (`begin [sha|z|alt]`)
 
@@ -119,7 +121,7 @@ def stepsK : Nat → Iter.AnyIt → List Iter.Out × Iter.AnyIt
 
 def isHistOp (n : String) : Bool :=
   ["begin", "mk", "get", "val", "copy", "set", "setv", "app", "pop", "chg", "obs", "len", "rd",
-   "snap", "chk", "memo", "hcount", "sum", "iter", "rset", "rtxt", "blen", "appd", "setd", "appv", "obsg", "iterget", "rehash", "iter2", "setu", "appu", "chgu", "iterm"].contains n
+   "snap", "chk", "memo", "hcount", "sum", "iter", "rset", "rtxt", "blen", "appd", "setd", "appv", "obsg", "iterget", "rehash", "iter2", "setu", "appu", "chgu", "iterm", "tamper"].contains n
 
 /-- PROP verdict of an operation of the two machines: the implementation's observation must be
     what the plain value machine says.  On a summarised backing (C12) an error is acceptable
@@ -154,7 +156,8 @@ def both (s : HState) (op : Op) (impl : List String) (newName : Option String :=
   let s3 := match mutated with
     | some id => { s2 with bound := s2.bound.map (· + pathBound s2.ms id) }
     | none => s2
-  (s3.align, render om, if skipV then "ok" else verdict s.partialTree impl ov)
+  (s3.align, render om, if skipV then "ok" else if s.tampered then (if impl == ["panic"] then "FAIL:panic" else "ok")
+    else verdict s.partialTree impl ov)
 
 def step (s : HState) (name0 : String) (args impl : List String) : Except String (HState × String × String) := do
   -- setu / appu / chgu: the inserted value was never hashed; same machines, but the hash-call
@@ -274,6 +277,20 @@ where stepH (s : HState) (name : String) (args impl : List String) : Except Stri
         let (st', err) := setBacking s.h (s.ms.size + 1) s.ms id n'
         let m := match err with | none => "ok" | some e => render (outOfErr e)
         pure ({ s with ms := st', partialTree := true }, m, if impl == ["panic"] then "FAIL:panic" else "ok")
+  | "tamper", h1 :: ov :: _ =>
+    withId h1 fun id => do
+      let o := s.ms[id]!
+      let ov ← natTok ov
+      let lim := match o.ty with | .list _ l => l | .bitlist l => l | _ => 0
+      match Api.tamperLength o.node ov with
+      | .error e => pure (s, render (outOfErr e), if impl == ["panic"] then "FAIL:panic" else "ok")
+      | .ok n' =>
+        let (st', err) := setBacking s.h (s.ms.size + 1) s.ms id n'
+        let m := match err with | none => "ok" | some e => render (outOfErr e)
+        -- beyond the limit: from here on an error is the only acceptable answer besides the value's
+        -- own data (partialTree rule); inside the limit the view no longer denotes the value: CORR only
+        pure ({ s with ms := st', partialTree := true, tampered := s.tampered || ov ≤ lim }, m,
+              if impl == ["panic"] then "FAIL:panic" else "ok")
   | "snap", _ :: h1 :: _ => withId h1 fun _ => pure (s, "ok", if impl == ["ok"] then "ok" else "FAIL:snapshot")
   | "chk", _ => return (s, "ok same", if impl == ["ok", "same"] then "ok" else "FAIL:old-version-changed")
   | "memo", h1 :: _ =>
@@ -305,6 +322,7 @@ where stepH (s : HState) (name : String) (args impl : List String) : Except Stri
       let sp := specIter vo.ty vo.val
       let v :=
         if " ".intercalate impl == sp then "ok"
+        else if s.tampered then (if impl == ["panic"] then "FAIL:panic" else "ok")
         else if s.partialTree then
           -- a prefix of the right components followed by an error is acceptable; a wrong component is not
           -- call by call: the right component (or the end report, from the length on), or an error
